@@ -1,21 +1,8 @@
 import SstModel.Generated.Funcs
 import SstModel.Model.Filter
 import SstModel.Model.Cmp
-/-
-  Tie theorems for the small generated functions: `mask_crc`, `unmask_crc`, `get_filter_index`,
-  `find_short_succ`.  Each says that the definition translated from the Rust source computes the
-  hand-written model function for every input (under the hypothesis that mirrors the Rust type or
-  panic, where there is one).
--/
-namespace Sst.FuncsTie.Small
-
-/-- a high part that is a multiple of `2^i` and a low part below `2^i` have disjoint bits -/
-private theorem lor_eq_add_of_mul (hi lo i : Nat) (h : lo < 2 ^ i) :
-    Nat.lor lo (hi * 2 ^ i) = lo + hi * 2 ^ i := by
-  have := Nat.shiftLeft_add_eq_or_of_lt h hi
-  rw [Nat.shiftLeft_eq] at this
-  show lo ||| hi * 2 ^ i = _
-  rw [Nat.or_comm, ← this, Nat.add_comm]
+/- Function-level tie: cmp.rs `DefaultCmp::find_short_succ` (translated by tools/gen_funcs.py) equals the model. -/
+namespace Sst.FuncsTie.Succ
 
 /-- `findShortSucc` of a string of `0xff` bytes appends `0xff` -/
 private theorem succ_all_ff (rest : Bytes) (h : ∀ x ∈ rest, x = 255) :
@@ -95,59 +82,10 @@ private theorem loop_succ0 (body : Nat × Bytes → Res (Rt.LStep (Nat × Bytes)
       else .ok (.ret (DefaultCmp.findShortSucc a)) :=
   loop_succ body a H1 H2 H3 a [] fuel rfl (by simp) hf
 
-end Sst.FuncsTie.Small
+end Sst.FuncsTie.Succ
 
 namespace Sst
-open Sst.FuncsTie.Small
-
-theorem Gen_mask_crc_tie (c : Nat) (hc : c < 2^32) : Gen.mask_crc c = .ok (maskCrc c) := by
-  have hlo : c / 2 ^ 15 < 2 ^ 17 := by omega
-  have hhi : c * 2 ^ 17 % 2 ^ 32 = (c % 2 ^ 15) * 2 ^ 17 := by omega
-  unfold Gen.mask_crc maskCrc Rt.wrappingAdd Rt.wrappingShr Rt.wrappingShl Consts.maskShr
-    Consts.maskShl Consts.maskDelta
-  show Res.ok _ = _
-  rw [show (15 % 32 : Nat) = 15 from rfl, show (17 % 32 : Nat) = 17 from rfl, hhi,
-    lor_eq_add_of_mul _ _ _ hlo]
-  apply congrArg Res.ok
-  omega
-
-/-- `unmask_crc` agrees with the model for every `mc` (both reduce `mc - delta` modulo `2^32` first) -/
-theorem Gen_unmask_crc_tie_all (mc : Nat) : Gen.unmask_crc mc = .ok (unmaskCrc mc) := by
-  unfold Gen.unmask_crc unmaskCrc Rt.wrappingSub Rt.wrappingShr Rt.wrappingShl
-    Consts.unmaskShr Consts.unmaskShl Consts.maskDelta
-  show Res.ok _ = _
-  dsimp only
-  rw [show (15 % 32 : Nat) = 15 from rfl, show (17 % 32 : Nat) = 17 from rfl,
-    show (2726488792 % 4294967296 : Nat) = 2726488792 from rfl,
-    show (2 ^ 32 : Nat) = 4294967296 from rfl]
-  have hrot : (mc + 4294967296 - 2726488792) % 4294967296 < 4294967296 := Nat.mod_lt _ (by decide)
-  generalize (mc + 4294967296 - 2726488792) % 4294967296 = rot at hrot
-  have hlo : rot / 2 ^ 17 < 2 ^ 15 := by omega
-  have hhi : rot * 2 ^ 15 % 4294967296 = (rot % 2 ^ 17) * 2 ^ 15 := by omega
-  rw [hhi, lor_eq_add_of_mul _ _ _ hlo]
-  apply congrArg Res.ok
-  omega
-
-theorem Gen_unmask_crc_tie (mc : Nat) (_h : mc < 2^32) : Gen.unmask_crc mc = .ok (unmaskCrc mc) :=
-  Gen_unmask_crc_tie_all mc
-
-/-- the hypothesis `c < 2^32` (the Rust type `u32`) of `Gen_mask_crc_tie` is needed: outside the type the
-    `|` of the generated code and the `+` of the model differ -/
-theorem Gen_mask_crc_differs_outside_u32 : Gen.mask_crc (2^32 + 1) ≠ .ok (maskCrc (2^32 + 1)) := by
-  intro h
-  have h' : (Nat.lor ((2^32 + 1) / 2^15) ((2^32 + 1) * 2^17 % 2^32) + 2726488792) % 4294967296
-      = maskCrc (2^32 + 1) := Res.ok.inj h
-  revert h'
-  decide
-
-theorem Gen_get_filter_index_tie (off b : Nat) (hb : b < 64) :
-    Gen.get_filter_index off b = .ok (FilterBlockBuilder.filterIndex off b) := by
-  simp [Gen.get_filter_index, FilterBlockBuilder.filterIndex, Rt.shrChk, hb]
-
-theorem Gen_get_filter_index_panics (off b : Nat) (hb : 64 ≤ b) :
-    (Gen.get_filter_index off b).isPanic = true := by
-  have : ¬ b < 64 := by omega
-  simp [Gen.get_filter_index, Rt.shrChk, this, Res.isPanic]
+open Sst.FuncsTie.Succ
 
 theorem Gen_find_short_succ_tie (a : Bytes) (fuel : Nat) (hf : a.length < fuel) :
     Gen.find_short_succ fuel a = .ok (DefaultCmp.findShortSucc a) := by
@@ -172,10 +110,4 @@ theorem Gen_find_short_succ_tie (a : Bytes) (fuel : Nat) (hf : a.length < fuel) 
     simp
 end Sst
 
-#print axioms Sst.Gen_mask_crc_tie
-#print axioms Sst.Gen_unmask_crc_tie
-#print axioms Sst.Gen_unmask_crc_tie_all
-#print axioms Sst.Gen_mask_crc_differs_outside_u32
-#print axioms Sst.Gen_get_filter_index_tie
-#print axioms Sst.Gen_get_filter_index_panics
 #print axioms Sst.Gen_find_short_succ_tie
